@@ -16,10 +16,16 @@ class Gen:
     def fresh(self): self.uid += 1; return self.uid
     def word(self):
         self.wn += 1
+        if self.r.random() < .03:        # the same quoted term in straight and in typographic spelling (both occur once there are two)
+            self.qn = getattr(self, 'qn', 0) + 1; self.features.add('quotes')
+            return ['"term"', '\u201cterm\u201d', "Buyer's", 'Buyer\u2019s'][(self.qn - 1) % 4]
         return self.r.choice(WORDS) + (str(self.wn) if self.r.random() < .6 else '')
     def text(self, n=None):
         n = n or self.r.randint(1, 4)
-        return ' '.join(self.word() for _ in range(n))
+        ws = [self.word() for _ in range(n)]
+        if self.r.random() < .08:          # a repeated word ("very very good"): removing one copy makes common prefix and suffix overlap
+            i = self.r.randrange(len(ws)); ws.insert(i, ws[i]); self.features.add('repeated_word')
+        return ' '.join(ws)
     def rpr(self):
         x = self.r.random()
         if x < .5: return None
@@ -142,7 +148,9 @@ class Gen:
             if x < .7: stories.append({'kind': 2, 'blocks': self.blocks(self.r.randint(1, 2))}); self.features.add('footer')
             if x > .5: stories.append({'kind': 2, 'hf': 'first', 'blocks': self.blocks(self.r.randint(1, 2))}); self.features.add('first_footer')
         if len(self.comments) > 1 and self.r.random() < .4: self.comments = self.comments[1:] + self.comments[:1]; self.features.add('comments_unsorted')
-        return {'stories': stories, 'comments': self.comments, 'next_uid': self.uid + 1000, 'rpr_table': self.table_list(), 'features': sorted(self.features)}
+        loc = 'de' if self.r.random() < .2 else 'en'          # the language of the Word that wrote the file decides the heading style ids
+        if loc != 'en': self.features.add('localised_style_ids')
+        return {'stories': stories, 'comments': self.comments, 'next_uid': self.uid + 1000, 'rpr_table': self.table_list(), 'style_ids': loc, 'features': sorted(self.features)}
     def table_list(self): return list(RPR_EXTRA) + ['<w:rStyle w:val="CommentReference"></w:rStyle>']
 
 def gen_doc(rng, profile='full', nparas=None):
